@@ -127,6 +127,47 @@ Proof. exact find_collapse_fixed_extends. Qed.
 Print Assumptions C16_find_collapse_fixed_extends_current.
 
 (* ---------------------------------------------------------------------
+   3b. Full statement (not provable for the current code): with a strictly
+       decreasing squared norm and a bracketed crossing the search finds a
+       collapse time for norm_steps large enough.  Refuted: when the crossing
+       lies within norm_t_tol after t_prev the guess is clamped to
+       t_prev + norm_t_tol, which becomes t_final; the bracket then has width
+       exactly norm_t_tol (the test is `<`), every further guess is clamped to
+       the same time, and the search fails for EVERY norm_steps. *)
+Theorem C16_search_stagnates_refuted :
+  exists (o : nat -> opts QN) (nrm2 : nat -> Q -> Q) (lg : Q -> Q) (stp : nat -> Q -> Q -> Q) (tg : Q),
+    (forall n, norm_steps QN (o n) = n) /\
+    (* the input is a perfectly regular one *)
+    (forall (s : nat) t u, (t < u)%Q -> (nrm2 s u < nrm2 s t)%Q) /\
+    ((nrm2 O 0 == 1)%Q /\ (nrm2 O 1 == 1#2)%Q /\ (1#2 <= tg)%Q /\ (tg < 1)%Q) /\
+    (exists tc, (nrm2 O tc == tg)%Q /\ (tc - 0 < norm_t_tol QN (o O))%Q) /\
+    (forall x y, (1 < x)%Q -> (x <= y)%Q -> (0 < lg x)%Q /\ (lg x <= lg y)%Q) /\
+    (forall sg c g, stp sg c g = g) /\
+    (* and still, whatever norm_steps: *)
+    forall n,
+      fst (find_collapse QN (o n) nrm2 lg stp 0 1%Q 0%Q 1%Q 1%Q (1#2)%Q tg) = None /\
+      (forall r, In r (snd (find_collapse QN (o n) nrm2 lg stp 0 1%Q 0%Q 1%Q 1%Q (1#2)%Q tg))
+                 -> r = (1#10)%Q).
+Proof.
+  exists stag_o, stag_nrm2, stag_lg, stag_stp, stag_tg.
+  destruct stag_input_is_fine as (A & B & C & D & E & F).
+  split; [reflexivity|]. split; [exact A|].
+  split; [unfold stag_nrm2, stag_tg; repeat split; try reflexivity; lra|].
+  split; [exists (3#50)%Q; split; assumption|]. split; [exact F|]. split; [reflexivity|].
+  intros n. exact (stag_never_found n).
+Qed.
+Print Assumptions C16_search_stagnates_refuted.
+
+(* with the width test written as `t_final <= t_prev + norm_t_tol` (the
+   expression the clamp itself uses) the same input is accepted at the second
+   try, with the bracket [0, 1/10] *)
+Theorem C16_search_stagnation_repaired_on_witness :
+  fct_loop_w (stag_o 5) stag_nrm2 stag_lg stag_stp 5 0 0 [] 1%Q 0%Q 1%Q 1%Q (1#2)%Q stag_tg
+  = Broke QN (1#10)%Q (1#10)%Q 2 [(1#10)%Q].
+Proof. exact stag_repaired. Qed.
+Print Assumptions C16_search_stagnation_repaired_on_witness.
+
+(* ---------------------------------------------------------------------
    4. Exact arithmetic: every time the search asks the ODE integrator for
       lies in (t_prev, t_final] - inside the dense-output range of the last
       step, so every backward step is legal - and the returned time and
